@@ -3,5 +3,5 @@
 set -e
 cd "$(dirname "$0")"
 export CARGO_NET_OFFLINE=true
-( cd sim && cargo build --offline --release )
+( cd sim && cargo build --offline --release && cargo build --offline --profile zcheck )
 echo "setup ok"
